@@ -62,6 +62,11 @@ def create_calls(li):
     return out
 
 
+def already_names(li):
+    """the local flag that says the service is already configured (defined False, then from a membership / is-not-None test)"""
+    return names_defined_by(li, lambda v: const(v) is False)
+
+
 def r17_2(run):
     li = LU(run)
     g = cfg_of(li)
@@ -100,7 +105,7 @@ def r17_2(run):
                     return eph
                 if isinstance(a, ast.Compare) and dotted(a.left) == 'self.auth' and is_none(a.comparators[0]):
                     return auth if isinstance(a.ops[0], ast.IsNot) else (not auth)
-                if dotted(a) == 'already':
+                if dotted(a) in already_names(li):
                     return False
                 return None
             want = ('Ephemeral' if eph else 'Filesystem') + ('Authenticated' if auth else '') + 'OnionService.create'
@@ -193,7 +198,8 @@ def r17_4(run):
     rets = [n for n in g.real_nodes() if n.kind == 'stmt' and isinstance(n.ast, ast.Return)]
     run.floor('R17.4', 'return sites in listen', len(rets), 1)
     cc = create_calls(li)
-    waitn = [n for n in g.real_nodes() if n.kind == 'stmt' and any(isinstance(a, ast.Yield) and dotted(a.value) == 'create_d' for a in node_asts(n))]
+    cdn = names_defined_by(li, lambda v: isinstance(v, ast.Call) and dotted(v.func) in CREATORS)
+    waitn = [n for n in g.real_nodes() if n.kind == 'stmt' and any(isinstance(a, ast.Yield) and dotted(a.value) in cdn for a in node_asts(n))]
     for rn in rets:
         v = rn.ast.value
         ok = isinstance(v, ast.Call) and dotted(v.func) == 'TorOnionListeningPort' and [dotted(a) for a in v.args] == [
@@ -201,7 +207,7 @@ def r17_4(run):
         run.ob('R17.4', li, rn.ast, 'listen resolves to a port object wrapping the bound port, the public port and the service', ok, slot='return-value',
                message='listen returns %s' % src(v)[:80])
         # not before the service exists: every path to the return passes the wait on creation or the already-configured leg
-        already = [(t.id, 'T') for t in g.live if t.kind == 'test' and dotted(t.ast) == 'already']
+        already = [(t.id, 'T') for t in g.live if t.kind == 'test' and dotted(t.ast) in already_names(li)]
         r = g.reachable([g.entry], avoid=lambda n: n in waitn, skip_edges=set(already))
         run.ob('R17.4', li, rn.ast, 'listen resolves only after the service creation (and its descriptor wait) is over', rn not in r, slot='return-after-create',
                message='listen can return before "yield create_d" on a path where the service was not already configured')
